@@ -192,3 +192,13 @@ package service
 //@   noinline
 //@ func (*ClientConfig).UDPClient
 //@   noinline
+
+// ---------------------------------------------------------------------------
+// UDP session relay, receive side (property C11: replies follow the client's latest address): the reply
+// goroutine notices a changed client address by comparing the published *sessionClientAddrInfo pointer with
+// the one it saw last, so a published record is never written again - a change of address is a new record.
+// ---------------------------------------------------------------------------
+//@ func (*UDPSessionRelay).recvFromServerConnGeneric
+//@   immutable sessionClientAddrInfo
+//@ func (*UDPSessionRelay).recvFromServerConnRecvmmsg
+//@   immutable sessionClientAddrInfo
